@@ -22,7 +22,8 @@
  * stream-backed connection (mptio/connection/connection_dispatch.c: streamWrapper/replyConnection on top of the
  * deferrable reply context) over a socketpair:
  *   c open <idlen>             connection whose output is a COBS stream on the socket, message ids of idlen bytes
- *   c req <hex> <acts>         as `s req`, through mpt_connection_dispatch; `defer` keeps the handle as h<k>
+ *   c req <hex> <acts>         as `s req`, through mpt_connection_dispatch; `defer` keeps the handle as h<k>;
+ *                              acts = `discard`: dispatch without a handler (the message is dropped, a request still gets its default reply)
  *   c dreply <k> <hex|none>    deferred handle k ->reply(msg)
  *   c await <tag> | c send <hex>   requester side: mpt_connection_await(handler <tag>) / mpt_connection_push(data)+push(0);
  *                              a later `c req` whose id carries the reply mark is the peer's answer (logged hr<tag>(payload))
@@ -274,7 +275,8 @@ static void con_op(void)
 	}
 	else if (!strcmp(op, "req") && drv_nw == 4) {
 		uint8_t *dat = 0; size_t dlen = 0; int isnull = 0;
-		if (!ccon_open || drv_parse_data(drv_w[2], &dat, &dlen, &isnull) || isnull || dlen > 1000 || !sin_act_ok(drv_w[3])) { puts("bad-op"); free(dat); return; }
+		int discard = !strcmp(drv_w[3], "discard");   /* mpt_connection_dispatch(con, 0, 0): drop the message */
+		if (!ccon_open || drv_parse_data(drv_w[2], &dat, &dlen, &isnull) || isnull || dlen > 1000 || !(discard || sin_act_ok(drv_w[3]))) { puts("bad-op"); free(dat); return; }
 		uint8_t wire[2100]; size_t wl = cobs_encode(dat, dlen, wire);
 		free(dat);
 		if (write(sin_peer, wire, wl) != (ssize_t) wl) { puts("R nowrite | C - | I ret=0"); return; }
@@ -283,10 +285,10 @@ static void con_op(void)
 		sin_acts = drv_w[3];
 		sin_defer_keep = 1;
 		int nx = mpt_stream_poll(srm, POLLIN, -1);
-		int dr = mpt_connection_dispatch(&ccon, sin_handler, 0);
+		int dr = mpt_connection_dispatch(&ccon, discard ? 0 : sin_handler, 0);
 		for (int round = 0, left = 0; !sin_called && !dr && round < 64 && !ioctl(sin_fd0, FIONREAD, &left) && left > 0; round++) {
 			nx = mpt_stream_poll(srm, POLLIN, -1);
-			dr = mpt_connection_dispatch(&ccon, sin_handler, 0);
+			dr = mpt_connection_dispatch(&ccon, discard ? 0 : sin_handler, 0);
 		}
 		sin_defer_keep = 0;
 		mpt_stream_flush(srm);
